@@ -43,6 +43,13 @@ def gen_cases(ctx):
         yield {"kind": "reject", "seed": int(rng.integers(1 << 31)),
                "fault": ["snapshot_counts", "n_grains", "ragged", "name_noext", "name_dat", "name_bak", "name_dat_postfix",
                          "load_non_npz", "from_file_non_npz"][i % 9]}
+    # array sizes not matching the grain count, in any snapshot (first / middle / last), either array, including sizes
+    # that NumPy would silently broadcast (one entry, a 0-d scalar, one bare 3x3 matrix)
+    shapes = ["plus1", "minus1", "one", "scalar", "single_matrix", "empty"]
+    for i in range(ctx.share(ctx.scale(108, 5400))):
+        rng = ctx.rng(3, i)
+        yield {"kind": "reject", "seed": int(rng.integers(1 << 31)), "fault": "size_mismatch", "where": ["first", "middle", "last"][i % 3],
+               "array": ["fractions", "orientations", "both"][(i // 3) % 3], "shape": shapes[(i // 9) % 6]}
 
 
 def special_floats(rng, shape):
@@ -226,6 +233,22 @@ def _reject(ctx, pydrex, case, scratch):
         n = m.n_grains
         m.orientations.append(gen.haar(rng, n + 1))
         m.fractions.append(np.full(n + 1, 1 / (n + 1)))
+        fn = lambda: m.save(path, postfix=postfix)
+    elif f == "size_mismatch":
+        n = m.n_grains
+        while len(m.fractions) < 3:
+            m.orientations.append(gen.haar(rng, n))
+            m.fractions.append(np.full(n, 1.0 / n))
+        k = {"first": 0, "middle": len(m.fractions) // 2, "last": len(m.fractions) - 1}[case["where"]]
+        sh = case["shape"]
+        if n == 1 and sh in ("one", "minus1", "empty"):
+            sh = "plus1"
+        cnt = {"plus1": n + 1, "minus1": n - 1, "one": 1, "empty": 0}.get(sh)
+        if case["array"] in ("fractions", "both"):
+            m.fractions[k] = np.float64(1.0) if sh in ("scalar", "single_matrix") else np.full(cnt, 1.0 / max(cnt, 1))
+        if case["array"] in ("orientations", "both"):
+            m.orientations[k] = gen.haar(rng, 1)[0] if sh in ("scalar", "single_matrix") else gen.haar(rng, max(cnt, 1))[:cnt]
+        f = f"size_mismatch/{case['array']}/{sh}"
         fn = lambda: m.save(path, postfix=postfix)
     elif f == "name_noext":
         fn = lambda: m.save(os.path.join(scratch, "x"), postfix=postfix)
